@@ -52,10 +52,58 @@ func c06Forward(c *Ctx) {
 	// a. constant buffer size fitting 16 bits
 	k, okK := fixedLen(buf)
 	c.Check(okK && k > 0 && k <= 0xFFFF, rule, "forward buffer", read.Pos(), fmt.Sprintf("read buffer has constant length %d <= 65535 (uint16(n) cannot truncate; DATA packet <= %d bytes)", k, k+10), fmt.Sprintf("the read buffer's length (%d, constant=%v) does not fit the 16-bit payload length: a full read is announced with a truncated length", k, okK))
-	// c/d. prefix and payload
-	var prefix, payload, bytesCall, tw, reset *ssa.Call
+	// c/d/e. the packet handed to tunnel.Write is createPacket(PKT_TYPE_DATA, uint16(count) ++ payload),
+	// assembled in forward itself or in a helper that is given buf[:n] (then count = len(parameter))
+	var tw *ssa.Call
+	for _, ci := range callsTo(fn, "(*"+protoPkg+".Tunnel).Write") {
+		if tw != nil {
+			c.Bad(rule, "forward assembly", ci.Pos(), "more than one tunnel write in the relay loop")
+		}
+		tw = ci.(*ssa.Call)
+	}
+	if tw == nil {
+		c.Bad(rule, "forward assembly", fn.Pos(), "length prefix / payload write / Bytes / tunnel.Write not all present")
+		return
+	}
+	isBufN := func(v ssa.Value) bool {
+		sl, ok := v.(*ssa.Slice)
+		return ok && sl.X == buf && sl.Low == nil && sl.High == n && sl.Max == nil
+	}
+	asmFn := fn
+	payloadIs := isBufN
+	countIs := func(v ssa.Value) bool { return v == n }
+	var pk *ssa.Call
+	helperArgOK := true
+	if call, ok := strip(arg(tw, 0)).(*ssa.Call); ok {
+		pk = call
+		if h := call.Call.StaticCallee(); h != nil && calleeName(call) != protoPkg+".createPacket" && IsFirstParty(h) && h.Blocks != nil && len(h.Params) == 1 && len(call.Call.Args) == 1 {
+			// helper mode
+			asmFn = h
+			hp := h.Params[0]
+			payloadIs = func(v ssa.Value) bool { return v == ssa.Value(hp) }
+			countIs = func(v ssa.Value) bool {
+				lc, ok := v.(*ssa.Call)
+				if !ok {
+					return false
+				}
+				bi, ok := lc.Call.Value.(*ssa.Builtin)
+				return ok && bi.Name() == "len" && lc.Call.Args[0] == ssa.Value(hp)
+			}
+			helperArgOK = isBufN(call.Call.Args[0])
+			pk = nil
+			for _, r := range returnsOf(h) {
+				rc, ok := strip(r.Results[0]).(*ssa.Call)
+				if !ok || pk != nil {
+					pk = nil
+					break
+				}
+				pk = rc
+			}
+		}
+	}
+	var prefix, payload, bytesCall, reset *ssa.Call
 	var b1 ssa.Value
-	for _, ci := range callsIn(fn) {
+	for _, ci := range callsIn(asmFn) {
 		call, ok := ci.(*ssa.Call)
 		if !ok {
 			continue
@@ -67,35 +115,29 @@ func c06Forward(c *Ctx) {
 			payload = call
 		case "(*bytes.Buffer).Bytes":
 			bytesCall = call
-		case "(*" + protoPkg + ".Tunnel).Write":
-			tw = call
 		case "(*bytes.Buffer).Reset":
 			reset = call
 		}
 	}
-	if prefix == nil || payload == nil || bytesCall == nil || tw == nil {
+	if prefix == nil || payload == nil || bytesCall == nil || pk == nil {
 		c.Bad(rule, "forward assembly", fn.Pos(), "length prefix / payload write / Bytes / tunnel.Write not all present")
 		return
 	}
 	b1 = recvOf(payload)
 	pOK := false
 	if mi, ok := arg(prefix, 2).(*ssa.MakeInterface); ok {
-		if cv, ok := mi.X.(*ssa.Convert); ok && cv.X == n {
+		if cv, ok := mi.X.(*ssa.Convert); ok && countIs(cv.X) {
 			if bt, ok := cv.Type().Underlying().(*types.Basic); ok && bt.Kind() == types.Uint16 {
 				pOK = strip(arg(prefix, 0)) == b1 && isLittleEndian(arg(prefix, 1))
 			}
 		}
 	}
 	c.Check(pOK, rule, "forward prefix", prefix.Pos(), "payload-length field = uint16(n) of this iteration's Read, little-endian, into the assembly buffer", "the payload-length field is not uint16 of the count this Read returned")
-	sOK := false
-	if sl, ok := arg(payload, 0).(*ssa.Slice); ok && sl.X == buf && sl.Low == nil && sl.High == n && sl.Max == nil {
-		sOK = true
-	}
+	sOK := payloadIs(arg(payload, 0)) && helperArgOK
 	c.Check(sOK, rule, "forward payload", payload.Pos(), "payload = buf[:n] with the same buffer and the same n", "the payload written is not buf[:n] for the buffer and count of this Read: bytes are dropped, duplicated or invented")
 	// e. packet
-	pk, okp := strip(arg(tw, 0)).(*ssa.Call)
 	dataT := c.ConstInt("cmd/rdpgw/protocol", "PKT_TYPE_DATA")
-	eOK := okp && calleeName(pk) == protoPkg+".createPacket" && strip(arg(pk, 1)) == ssa.Value(bytesCall) && recvOf(bytesCall) == b1 && recvOf(tw) == ssa.Value(tunP)
+	eOK := calleeName(pk) == protoPkg+".createPacket" && strip(arg(pk, 1)) == ssa.Value(bytesCall) && recvOf(bytesCall) == b1 && recvOf(tw) == ssa.Value(tunP)
 	if eOK {
 		t, _ := constInt(arg(pk, 0))
 		eOK = t == dataT
@@ -119,8 +161,8 @@ func c06Forward(c *Ctx) {
 	c.Check(okOne, rule, "forward one-packet-per-read", tw.Pos(), "every successful read is followed by its DATA packet before the next read", "after a successful read the loop can reach the next read without sending the bytes: host data is dropped")
 	// f. assembly buffer empty at the top of each iteration: fresh per iteration, or Reset on every path from the write to the next read
 	fresh := false
-	if al, ok := b1.(*ssa.Alloc); ok && inCycle(al.Block()) {
-		fresh = true
+	if al, ok := b1.(*ssa.Alloc); ok && (inCycle(al.Block()) || asmFn != fn && !inCycle(al.Block())) {
+		fresh = true // allocated inside the loop, or once per call of the assembling helper
 	}
 	resetOK := fresh
 	if !fresh && reset != nil && recvOf(reset) == b1 {
